@@ -200,56 +200,79 @@ def _explain(events):
     return [res.get(i + 1) for i in range(len(events))]
 
 
-def trace(res, binary, mode, n, seed, want="", tags="verif", name=None, shards=None):
-    """C->S: seeded driver `mode` on the real code, every event validated by TLC, rejections explained and reproduced."""
-    name = name or mode
-    env = {"DESC_GEN": mode, "DESC_WANT": want}
-    gen = os.path.join(scratch(), "desc-%s-gen-%d.ndjson" % (name, seed))
-    tr = os.path.join(scratch(), "desc-%s-trace-%d.ndjson" % (name, seed))
-    _run_harness(binary, ["gen", "desc", seed, n, gen], env=env)
-    rr = _run_harness(binary, ["exec", "desc", gen, tr], env=env)
-    total = json.loads(rr.stdout.strip().splitlines()[-1])["cases"]
-    import time
-    t0 = time.time()
-    bad = _validate(tr, total, shards or vlib.NPAR)
-    log("validated %d %s events against Trace_Schema in %.1fs: %d rejected" % (total, name, time.time() - t0, len(bad)))
-    events = list(read_ndjson(tr))
-    for i, ev in enumerate(events):
-        res.distinct.add(json.dumps(class_of(ev), sort_keys=True))
-        if i % 199 == 0:
-            slim = {k: v for k, v in ev.items() if k not in ("out",)}
-            res.sample(json.dumps(slim, sort_keys=True)[:900])
-    if bad:
-        rej = [events[i] for i in bad]
-        # reproduce on the freshly built code
-        rp = os.path.join(scratch(), "desc-repro.ndjson")
-        with open(rp, "w") as fh:
-            for e in rej:
-                fh.write(json.dumps({k: v for k, v in e.items() if k != "out"}) + "\n")
-        _run_harness(binary, ["exec", "desc", rp, rp + ".out"], env=env)
-        again = list(read_ndjson(rp + ".out"))
-        why = _explain(rej)
-        for e, e2, w in zip(rej, again, why):
-            if e2.get("out") != e.get("out"):
-                raise Infra("event of mode %s is not reproducible; refusing to report\nfirst: %s\nagain: %s" % (
-                    mode, json.dumps(e)[:600], json.dumps(e2)[:600]))
-            mm = []
-            if "panic" in (e.get("out") or {}):
-                mm = ["panic"]
-            elif w:
-                mm = mismatch_of(e.get("out"), w.get("exp"))
-                if not w.get("laws", True):
-                    mm.append("viewlaws")
-            for why in why_classes(mm, e):
-                res.fail(dict(e, _module="desc", _trace="Trace_Schema", _tags=tags, _env=env, mismatch=mm, why=why,
-                              defects=(w or {}).get("defects", []), **_diffs(e)),
-                         "trace: specification rejects the recorded event (reproduced); differs on %s" % why)
-    res.trace_events += total
-    res.evaluations += total
-    res.traces += 1
-    os.remove(gen)
-    os.remove(tr)
-    return total, bad
+class Traces:
+    """C->S: seeded drivers on the real code; all recorded events of one check are validated by TLC in one sharded pass
+    (a JVM start costs more than validating a few hundred events), rejections are explained and reproduced."""
+
+    def __init__(self, res, tier):
+        self.res, self.tier, self.groups = res, tier, []
+
+    def add(self, binary, mode, n, seed, want="", tags="verif", name=None):
+        name = (name or mode) + ("-legacy" if "protolegacy" in tags else "")
+        env = {"DESC_GEN": mode, "DESC_WANT": want}
+        gen = os.path.join(scratch(), "desc-%s-gen-%d.ndjson" % (name, seed))
+        tr = os.path.join(scratch(), "desc-%s-trace-%d.ndjson" % (name, seed))
+        _run_harness(binary, ["gen", "desc", seed, n, gen], env=env)
+        rr = _run_harness(binary, ["exec", "desc", gen, tr], env=env)
+        total = json.loads(rr.stdout.strip().splitlines()[-1])["cases"]
+        os.remove(gen)
+        self.groups.append(dict(binary=binary, mode=mode, name=name, env=env, tags=tags, path=tr, total=total))
+        return total
+
+    def finish(self):
+        import time
+        res = self.res
+        allp = os.path.join(scratch(), "desc-all-trace.ndjson")
+        owner = []
+        with open(allp, "w") as w:
+            for gi, g in enumerate(self.groups):
+                for l in open(g["path"]):
+                    if l.strip():
+                        w.write(l)
+                        owner.append(gi)
+        t0 = time.time()
+        shards = 2 if self.tier == "quick" else vlib.NPAR
+        bad = _validate(allp, len(owner), shards)
+        log("validated %d events (%s) against Trace_Schema in %.1fs: %d rejected" % (
+            len(owner), ", ".join("%s: %d" % (g["name"], g["total"]) for g in self.groups), time.time() - t0, len(bad)))
+        events = list(read_ndjson(allp))
+        for i, ev in enumerate(events):
+            res.distinct.add(json.dumps(class_of(ev), sort_keys=True))
+            if i % 199 == 0:
+                res.sample(json.dumps({k: v for k, v in ev.items() if k != "out"}, sort_keys=True)[:900])
+        by_group = {}
+        for i in bad:
+            by_group.setdefault(owner[i], []).append(events[i])
+        for gi, rej in by_group.items():
+            g = self.groups[gi]
+            rp = os.path.join(scratch(), "desc-repro.ndjson")
+            with open(rp, "w") as fh:
+                for e in rej:
+                    fh.write(json.dumps({k: v for k, v in e.items() if k != "out"}) + "\n")
+            _run_harness(g["binary"], ["exec", "desc", rp, rp + ".out"], env=g["env"])
+            again = list(read_ndjson(rp + ".out"))
+            why = _explain(rej)
+            for e, e2, w in zip(rej, again, why):
+                if e2.get("out") != e.get("out"):
+                    raise Infra("event of mode %s is not reproducible; refusing to report\nfirst: %s\nagain: %s" % (
+                        g["mode"], json.dumps(e)[:600], json.dumps(e2)[:600]))
+                mm = []
+                if "panic" in (e.get("out") or {}):
+                    mm = ["panic"]
+                elif w:
+                    mm = mismatch_of(e.get("out"), w.get("exp"))
+                    if not w.get("laws", True):
+                        mm.append("viewlaws")
+                for cls in why_classes(mm, e):
+                    res.fail(dict(e, _module="desc", _trace="Trace_Schema", _tags=g["tags"], _env=g["env"], mismatch=mm, why=cls,
+                                  defects=(w or {}).get("defects", []), **_diffs(e)),
+                             "trace: specification rejects the recorded event (reproduced); differs on %s" % cls)
+        res.trace_events += len(owner)
+        res.evaluations += len(owner)
+        res.traces += len(self.groups)
+        for g in self.groups:
+            os.remove(g["path"])
+        os.remove(allp)
 
 
 def mc_cfg(tier, prop, steps, invariants):
@@ -270,9 +293,8 @@ LINKED_NOTE = ("linked files whose FileDescriptorProto carries fields outside th
                "(none at present); files with unresolvable imports are run with AllowUnresolvable")
 
 
-def _linked(res, b, tier, seed, want, tags="verif"):
-    n = 36 if tier == "quick" else 1000
-    return trace(res, b, "linked", n, seed, want=want, tags=tags, name="linked" + ("-legacy" if "protolegacy" in tags else ""))
+def _nlinked(tier):
+    return 20 if tier == "quick" else 1000
 
 
 # --------------------------------------------------------------------------- C34
@@ -283,11 +305,12 @@ def c34(res, tier, seed):
     tour(res, b, "MC_SchemaSpace", mc_cfg(tier, "C34", s, ["StaysValid", "NormalForm"]),
          "schema space, %d steps; laws: machine stays valid, Normal idempotent and Views-preserving" % s, "c34")
     res.exhaustive = True
-    _linked(res, b, tier, seed, "snap,back,rt")
-    trace(res, b, "schemas", 120 if tier == "quick" else 4000, seed, want="snap,back,rt")
+    t = Traces(res, tier)
+    t.add(b, "linked", _nlinked(tier), seed, want="snap,back,rt")
+    t.add(b, "schemas", 100 if tier == "quick" else 4000, seed, want="snap,back,rt")
     if tier != "quick":
-        bl = build_harness(("desc",), tags="verif,protolegacy")
-        _linked(res, bl, tier, seed, "snap,back,rt", tags="verif,protolegacy")
+        t.add(build_harness(("desc",), tags="verif,protolegacy"), "linked", 1000, seed, want="snap,back,rt", tags="verif,protolegacy")
+    t.finish()
     res.rule = (BASE_RULE % s + "each must be accepted by NewFile, show Views(file) on every accessor, come back from "
                 "ToFileDescriptorProto as Normal(file) and be reproduced by NewFile(ToFileDescriptorProto(d)); "
                 "driver: linked files (generated descriptor = NewFile(ToFileDescriptorProto) = Views) and seeded random schemas; " + DISTINCT_RULE)
@@ -307,8 +330,10 @@ def c35(res, tier, seed):
          "schema space, %d steps, x every applicable invalidity injection x both AllowUnresolvable settings; "
          "law: every injection exhibits its defect class" % s, "c35", timeout=6000)
     res.exhaustive = True
-    trace(res, b, "mutants", 500 if tier == "quick" else 30000, seed, want="snap")
-    trace(res, b, "fuzz", 300 if tier == "quick" else 30000, seed + 1)
+    t = Traces(res, tier)
+    t.add(b, "mutants", 400 if tier == "quick" else 30000, seed, want="snap")
+    t.add(b, "fuzz", 300 if tier == "quick" else 30000, seed + 1)
+    t.finish()
     res.rule = (BASE_RULE % s + "plus, from each, every applicable one of ~110 invalidity injections (duplicate names/numbers, "
                 "invalid/overlapping ranges, reserved names/numbers, extension-range clashes, malformed maps/groups, oneof "
                 "defects, proto3-forbidden constructs, unresolvable references, packed/enum/presence combinations), under both "
@@ -327,12 +352,13 @@ def c36(res, tier, seed):
          "schema space, %d steps; law: Views(file) satisfies the view laws (index, first-wins keyed lookups, full names, "
          "parent chains, range/name membership, required numbers, oneof and map links)" % s, "c36")
     res.exhaustive = True
-    _linked(res, b, tier, seed, "snap")
-    trace(res, b, "schemas", 120 if tier == "quick" else 4000, seed, want="snap")
-    trace(res, b, "mutants", 200 if tier == "quick" else 10000, seed + 2, want="snap")
+    t = Traces(res, tier)
+    t.add(b, "linked", _nlinked(tier), seed + 7, want="snap")
+    t.add(b, "schemas", 80 if tier == "quick" else 4000, seed, want="snap")
+    t.add(b, "mutants", 150 if tier == "quick" else 10000, seed + 2, want="snap")
     if tier != "quick":
-        bl = build_harness(("desc",), tags="verif,protolegacy")
-        _linked(res, bl, tier, seed, "snap", tags="verif,protolegacy")
+        t.add(build_harness(("desc",), tags="verif,protolegacy"), "linked", 1000, seed, want="snap", tags="verif,protolegacy")
+    t.finish()
     res.rule = (BASE_RULE % s + "the snapshot of every accessor (incl. ByName/ByNumber/ByJSONName/ByTextName of every element, "
                 "lower-case aliases of group-like fields, Has at every range boundary +-1, absent keys) must equal Views(file); "
                 "driver: every recorded snapshot (linked files, random schemas, accepted mutants) must satisfy ViewLaws; " + DISTINCT_RULE)
@@ -348,11 +374,12 @@ def c37(res, tier, seed):
          "schema space, %d steps; filedesc.Builder on the marshalled proto must show Views(file), equal protodesc's "
          "descriptor and not depend on the order in which accessors trigger lazy initialisation" % s, "c37")
     res.exhaustive = True
-    _linked(res, b, tier, seed, "snap,bsame,blazy")
-    trace(res, b, "schemas", 120 if tier == "quick" else 4000, seed, want="bsnap,bsame,blazy")
+    t = Traces(res, tier)
+    t.add(b, "linked", _nlinked(tier), seed + 13, want="snap,bsame,blazy")
+    t.add(b, "schemas", 100 if tier == "quick" else 4000, seed, want="bsnap,bsame,blazy")
     if tier != "quick":
-        bl = build_harness(("desc",), tags="verif,protolegacy")
-        _linked(res, bl, tier, seed, "snap,bsame,blazy", tags="verif,protolegacy")
+        t.add(build_harness(("desc",), tags="verif,protolegacy"), "linked", 1000, seed, want="snap,bsame,blazy", tags="verif,protolegacy")
+    t.finish()
     res.rule = (BASE_RULE % s + "three constructions per file -- protodesc.NewFile, filedesc.Builder (accessors in declaration "
                 "order), filedesc.Builder (extensions/enums first, messages backwards, file options last) -- must agree with "
                 "Views and with each other; linked files additionally compare the descriptor registered by generated code; " + DISTINCT_RULE)
@@ -372,10 +399,12 @@ def c38(res, tier, seed):
              "extensions); laws: fold = nearest explicit setting, Views reports ResolveNearest, derived semantics" % (ed, 1 if quick else 2),
              "c38-%d" % ed, timeout=6000)
     res.exhaustive = True
-    trace(res, b, "defaults", 5, seed)
-    trace(res, b, "pairschema", 10, seed)
-    trace(res, b, "pair", 1500 if quick else 100000, seed, shards=vlib.NPAR)
-    trace(res, b, "schemas", 100 if quick else 3000, seed + 3, want="snap,bsnap,bsame")
+    t = Traces(res, tier)
+    t.add(b, "defaults", 5, seed)
+    t.add(b, "pairschema", 10, seed)
+    t.add(b, "pair", 1500 if quick else 100000, seed)
+    t.add(b, "schemas", 60 if quick else 3000, seed + 3, want="snap,bsnap,bsame")
+    t.finish()
     res.rule = ("tour: every valid placement of up to %d feature overrides on an editions skeleton, resolved features and derived "
                 "accessors (HasPresence, IsPacked, IsClosed, EnforceUTF8, group kind, required cardinality, Go features) of both "
                 "constructions vs Resolve; driver: edition defaults of 5 editions, schema equivalence of 6 proto2/proto3-vs-editions "
